@@ -11,355 +11,5 @@
     One deviation from "for all arguments": the Rust code converts the remaining declared length (a u64) to a buffer length with
     [left.min(usize::MAX as u64) as usize]; the model does not cap it.  The two agree whenever one of: the declared length,
     the input length, the output room is below 2^64 (all three are, for the Rust types); see [sized_fits] / [limit_fits]. *)
-From Coq Require Import NArith ZArith Bool List Lia ZifyBool ZifyN.
-From Hoot Require Import Base Chunk Body GenLib Gen Gen2.
-From Hoot.proofs Require Import BytesLemmas Gen_equiv_body.
-Open Scope N_scope.
-
-(* ------------------------------------------------------------------ tactics *)
-
-(** lengths of literal lists and of take/drop/app as arithmetic *)
-Ltac norm_len :=
-  unfold TERMINATOR, CRLF, DEFAULT_CHUNK_SIZE in *;
-  rewrite ?len_app, ?len_take, ?len_drop, ?len_cons, ?len_nil in *.
-
-Ltac arith := solve [ lia | norm_len; lia | cbn [len] in *; lia | norm_len; cbn [len] in *; lia ].
-
-(** split one conditional (of either side); a contradictory combination is closed at once *)
-Ltac split_if :=
-  match goal with
-  | |- context [if ?c then _ else _] => destruct c eqn:?; try (exfalso; arith)
-  end.
-
-Lemma take_eq {A} n m (l : list A) : n = m -> take n l = take m l.
-Proof. intros ->. reflexivity. Qed.
-Lemma drop_eq {A} n m (l : list A) : n = m -> drop n l = drop m l.
-Proof. intros ->. reflexivity. Qed.
-
-(** leaves: equalities between numbers, between [take]s / [drop]s at provably equal counts, between lists built from them *)
-Ltac list_eq :=
-  rewrite ?app_nil_r, <- ?app_assoc;
-  repeat match goal with
-         | |- ?x = ?x => reflexivity
-         | |- ?a ++ _ = ?a ++ _ => apply f_equal
-         | |- _ :: _ = _ :: _ => apply f_equal2; [reflexivity || arith|]
-         | |- take _ ?l = take _ ?l => apply take_eq; arith
-         | |- drop _ ?l = drop _ ?l => apply drop_eq; arith
-         end.
-Ltac leaf :=
-  cbn [w_mode w_ended andb orb negb fst snd];
-  repeat match goal with |- _ /\ _ => split end;
-  try reflexivity; try exact I; try arith;
-  try (apply f_equal; arith);
-  try (list_eq; fail).
-
-(* ------------------------------------------------------------------ relations *)
-
-Definition U64_LIMIT : N := 18446744073709551616.
-
-(** Generated writer call versus the model's: same new mode and ended flag, same count, the model's bytes are appended to what
-    had been written and taken off the available space (and they fit); a panic corresponds to a panic; no errors. *)
-Definition wr_rel (avail : N) (out0 : bytes) (g : res (smode * bool * N * bytes * N)) (m : res (writer * N * bytes)) : Prop :=
-  match g, m with
-  | Ok (m', e', avail', out', used), Ok (w', used2, bs) =>
-      m' = w_mode w' /\ e' = w_ended w' /\ used = used2 /\ out' = out0 ++ bs /\ avail' = avail - len bs /\ len bs <= avail
-  | Panic _, Panic _ => True
-  | _, _ => False
-  end.
-
-Definition dw_rel (g : res (smode * bool * unit)) (m : res writer) : Prop :=
-  match g, m with
-  | Ok (m', e', _), Ok w' => m' = w_mode w' /\ e' = w_ended w'
-  | Err e1, Err e2 => e1 = e2
-  | Panic _, Panic _ => True
-  | _, _ => False
-  end.
-
-(** Generated reader call versus the model's: same new reader, same counts, the destination buffer holds the model's output
-    followed by its old contents. *)
-Definition rd_rel (dst : bytes) (g : res (reader * bytes * (N * N))) (m : res (reader * N * bytes)) : Prop :=
-  match g, m with
-  | Ok (r1, dst1, (i1, o1)), Ok (r2, i2, out2) => r1 = r2 /\ i1 = i2 /\ o1 = len out2 /\ dst1 = out2 ++ drop (len out2) dst
-  | Err e1, Err e2 => e1 = e2
-  | Panic _, Panic _ => True
-  | _, _ => False
-  end.
-
-(** The u64 -> usize conversion is the identity on the value that matters (see the header). *)
-Definition sized_fits (m : smode) (avail : N) (input : bytes) : Prop :=
-  match m with
-  | SSized l => l < U64_LIMIT \/ avail < U64_LIMIT \/ len input < U64_LIMIT
-  | _ => True
-  end.
-
-Definition limit_fits (r : reader) (src dst : bytes) : Prop :=
-  match r with
-  | RLength l => l < U64_LIMIT \/ len src < U64_LIMIT \/ len dst < U64_LIMIT
-  | _ => True
-  end.
-
-Definition smode_u64 (m : smode) : Prop := match m with SSized l => l < U64_LIMIT | _ => True end.
-Definition reader_u64 (r : reader) : Prop := match r with RLength l => l < U64_LIMIT | _ => True end.
-
-Lemma smode_u64_fits m avail input : smode_u64 m -> sized_fits m avail input.
-Proof. destruct m; cbn; auto. Qed.
-Lemma reader_u64_fits r src dst : reader_u64 r -> limit_fits r src dst.
-Proof. destruct r; cbn; auto. Qed.
-
-(* ------------------------------------------------------------------ A. queries *)
-
-Lemma gen_br_is_ended_eq r : gen_br_is_ended r = reader_is_ended r.
-Proof. destruct r as [|l|d|]; try reflexivity; destruct d; reflexivity. Qed.
-
-Lemma gen_br_is_on_chunk_boundary_eq r : gen_br_is_on_chunk_boundary r = reader_on_boundary r.
-Proof. destruct r as [|l|d|]; try reflexivity; destruct d; reflexivity. Qed.
-
-Lemma gen_br_body_mode_eq r : gen_br_body_mode r = reader_mode r.
-Proof. destruct r; reflexivity. Qed.
-
-Lemma gen_bw_has_body_eq m e : gen_bw_has_body m e = has_body {| w_mode := m; w_ended := e |}.
-Proof. destruct m; reflexivity. Qed.
-
-Lemma gen_bw_is_chunked_eq m e : gen_bw_is_chunked m e = w_is_chunked {| w_mode := m; w_ended := e |}.
-Proof. destruct m; reflexivity. Qed.
-
-Lemma gen_bw_is_ended_eq m e : gen_bw_is_ended m e = e.
-Proof. reflexivity. Qed.
-
-Lemma gen_bw_left_to_send_eq m e : gen_bw_left_to_send m e = left_to_send {| w_mode := m; w_ended := e |}.
-Proof. destruct m; reflexivity. Qed.
-
-(* ------------------------------------------------------------------ B. writer *)
-
-(** [finish]: writes the terminator iff the body is chunked and it fits. *)
-Lemma gen_bw_finish_spec m e avail out :
-  gen_bw_finish m e avail out =
-  if w_is_chunked {| w_mode := m; w_ended := e |}
-  then if len TERMINATOR <=? avail
-       then Ok (avail - len TERMINATOR, out ++ TERMINATOR, true)
-       else Ok (avail, out, false)
-  else Ok (avail, out, true).
-Proof.
-  unfold gen_bw_finish. rewrite gen_bw_is_chunked_eq. cbv zeta.
-  repeat split_if; try reflexivity; repeat apply f_equal2; try reflexivity; arith.
-Qed.
-
-(** One [write_chunk]. *)
-Lemma gen_body_write_chunk_spec input input_used avail out maxc :
-  gen_body_write_chunk input input_used avail out maxc =
-  match write_chunk input avail maxc with
-  | None => Ok (input_used, avail, out, false)
-  | Some (n, o) => Ok (input_used + n, avail - len o, out ++ o, n <? len input)
-  end.
-Proof.
-  unfold gen_body_write_chunk, write_chunk. rewrite gen_max_chunk_fit_eq.
-  generalize (max_chunk_fit avail maxc). intros fit. cbv zeta.
-  remember (N.min (N.min (len input) maxc) fit) as n eqn:Hn.
-  (* the generated count is the model's *)
-  repeat match goal with
-         | |- context [hex_of ?k] => lazymatch k with n => fail | _ => replace k with n by lia end
-         | |- context [take ?k input] => lazymatch k with n => fail | _ => replace k with n by lia end
-         end.
-  unfold enc_chunk_n, CRLF. rewrite <- ?app_assoc. cbn [app].
-  repeat split_if; cbn [andb]; try reflexivity;
-    repeat match goal with |- Ok _ = Ok _ => apply f_equal | |- (_, _) = (_, _) => apply f_equal2 end;
-    try reflexivity; try arith.
-Qed.
-
-Lemma write_chunk_fits input avail maxc n o : write_chunk input avail maxc = Some (n, o) -> len o <= avail.
-Proof.
-  unfold write_chunk. cbv zeta. destruct (_ =? 0); [discriminate|].
-  destruct (N.leb_spec (len (enc_chunk_n (N.min (N.min (len input) maxc) (max_chunk_fit avail maxc)) input)) avail) as [H|H];
-    [|discriminate].
-  intros E. inversion E; subst. exact H.
-Qed.
-
-(** The [while write_chunk(..) {}] loop: the generated loop keeps the input whole and advances [input_used], the model
-    recurses on the rest of the input; same fuel, same behaviour when it runs out. *)
-Definition wl_rel (m : smode) (e : bool) (avail : N) (gout mout : bytes)
-           (g : res (smode * bool * N * bytes * N)) (r : N * bytes) : Prop :=
-  match g, r with
-  | Ok (m', e', avail', gout', u), (u2, mout') =>
-      m' = m /\ e' = e /\ u = u2 /\
-      exists delta, mout' = mout ++ delta /\ gout' = gout ++ delta /\ avail' = avail - len delta /\ len delta <= avail
-  | _, _ => False
-  end.
-
-Lemma gen_bw_write_loop1_equiv input m e : forall fuel used avail gout mout rest used2,
-  rest = drop used input -> used2 = used ->
-  wl_rel m e avail gout mout (gen_bw_write_loop1 fuel input m e avail gout used) (chunk_loop fuel rest avail used2 mout).
-Proof.
-  induction fuel as [|f IH]; intros used avail gout mout rest used2 -> ->.
-  - cbn [gen_bw_write_loop1 chunk_loop wl_rel]. repeat split. exists []. rewrite !app_nil_r. repeat split; arith.
-  - cbn [gen_bw_write_loop1 chunk_loop]. rewrite gen_body_write_chunk_spec. unfold DEFAULT_CHUNK_SIZE.
-    destruct (write_chunk (drop used input) avail 10240) as [[n o]|] eqn:Hwc; cbn [bind].
-    + pose proof (write_chunk_fits _ _ _ _ _ Hwc) as Hfit.
-      destruct (n <? len (drop used input)) eqn:Hlt.
-      * specialize (IH (used + n) (avail - len o) (gout ++ o) (mout ++ o) (drop n (drop used input)) (used + n)
-                       (drop_drop _ _ _) eq_refl).
-        destruct (gen_bw_write_loop1 f input m e (avail - len o) (gout ++ o) (used + n)) as [[[[[m' e'] a'] g'] u']|?|?];
-          destruct (chunk_loop f (drop n (drop used input)) (avail - len o) (used + n) (mout ++ o)) as [u2 mo'];
-          cbn [wl_rel] in *; try contradiction.
-        destruct IH as (-> & -> & -> & delta & -> & -> & -> & Hd).
-        repeat split. exists (o ++ delta). rewrite !app_assoc. repeat split; arith.
-      * cbn [wl_rel]. repeat split. exists o. repeat split; arith.
-    + cbn [wl_rel]. repeat split. exists []. rewrite !app_nil_r. repeat split; arith.
-Qed.
-
-(** [BodyWriter::write]. *)
-Theorem gen_bw_write_equiv m e input avail out0 :
-  sized_fits m avail input ->
-  wr_rel avail out0 (gen_bw_write m e input avail out0) (writer_write {| w_mode := m; w_ended := e |} input avail).
-Proof.
-  intros Hfit. destruct m as [|lft|].
-  - exact I.
-  - (* Sized: the assert!(success) branch is unreachable, the bytes written are a prefix no longer than the room *)
-    unfold gen_bw_write, writer_write. cbn [w_mode w_ended]. cbv zeta.
-    cbn [sized_fits] in Hfit. unfold U64_LIMIT in Hfit.
-    rewrite ?len_take.
-    repeat split_if; cbn [wr_rel]; leaf.
-  - (* Chunked *)
-    unfold gen_bw_write, writer_write. cbn [w_mode w_ended]. cbv zeta.
-    destruct input as [|x t].
-    + rewrite ?gen_bw_finish_spec. cbn [w_is_chunked w_mode].
-      repeat (split_if; cbn [bind andb negb wr_rel] in * ); try discriminate; leaf.
-    + set (input := x :: t) in *.
-      pose proof (gen_bw_write_loop1_equiv input SChunked e (S (List.length input)) 0 avail out0 [] input 0
-                                           (eq_sym (drop_0 _)) eq_refl) as H.
-      assert (Hne : len input <> 0) by (subst input; rewrite len_cons; lia).
-      repeat split_if.
-      destruct (gen_bw_write_loop1 _ _ _ _ _ _ _) as [[[[[m' e'] a'] g'] u']|?|?];
-        destruct (chunk_loop _ _ _ _ _) as [u2 mo']; cbn [wl_rel bind wr_rel] in *; try contradiction.
-      destruct H as (-> & -> & -> & delta & -> & -> & -> & Hd). cbn [app]. leaf.
-Qed.
-
-Corollary gen_bw_write_equiv_u64 m e input avail out0 :
-  smode_u64 m ->
-  wr_rel avail out0 (gen_bw_write m e input avail out0) (writer_write {| w_mode := m; w_ended := e |} input avail).
-Proof. intros H. apply gen_bw_write_equiv, smode_u64_fits, H. Qed.
-
-(** [BodyWriter::consume_direct_write]. *)
-Theorem gen_bw_direct_equiv m e amount :
-  dw_rel (gen_bw_consume_direct_write m e amount) (writer_direct {| w_mode := m; w_ended := e |} amount).
-Proof.
-  destruct m as [|lft|]; try exact I.
-  unfold gen_bw_consume_direct_write, writer_direct. cbn [w_mode w_ended]. cbv zeta.
-  repeat split_if; cbn [dw_rel]; leaf.
-Qed.
-
-(* ------------------------------------------------------------------ C. reader, not chunked *)
-
-Lemma splice_0 dst n k (s : bytes) : k = n -> n <= len s -> splice dst 0 n (take k s) = take n s ++ drop (len (take n s)) dst.
-Proof.
-  intros -> H. unfold splice. rewrite take_0, take_take, len_take. cbn [app].
-  apply f_equal2; [apply take_eq; lia|apply drop_eq; lia].
-Qed.
-
-(** the generated count is the model's *)
-Ltac same_count n :=
-  repeat match goal with
-         | |- context [splice _ _ ?k _] => lazymatch k with n => fail | _ => replace k with n by lia end
-         end.
-
-Theorem gen_br_read_limit_equiv lft src dst stop :
-  limit_fits (RLength lft) src dst ->
-  rd_rel dst (gen_br_read_limit (RLength lft) src dst) (reader_read (RLength lft) src (len dst) stop).
-Proof.
-  intros Hfit. cbn [limit_fits] in Hfit. unfold U64_LIMIT in Hfit.
-  unfold gen_br_read_limit, reader_read. cbv zeta. cbn [rd_rel].
-  remember (N.min (N.min (len src) (len dst)) lft) as n eqn:Hn.
-  same_count n. rewrite splice_0 with (n := n) by lia.
-  leaf.
-Qed.
-
-Theorem gen_br_read_unlimit_equiv src dst stop :
-  rd_rel dst (gen_br_read_unlimit RClose src dst) (reader_read RClose src (len dst) stop).
-Proof.
-  unfold gen_br_read_unlimit, reader_read. cbv zeta. cbn [rd_rel].
-  remember (N.min (len src) (len dst)) as n eqn:Hn.
-  same_count n. rewrite splice_0 with (n := n) by lia.
-  leaf.
-Qed.
-
-(** a call that only forwards its callee's result *)
-Lemma rd_rel_forward dst g m :
-  rd_rel dst g m -> rd_rel dst (bind g (fun '(self, buf, part) => Ok (self, buf, part))) m.
-Proof. destruct g as [[[r b] p]|?|?]; cbn [bind]; exact (fun H => H). Qed.
-
-(** [BodyReader::read] on a reader that is not chunked. *)
-Theorem gen_br_read_nonchunked_equiv r src dst stop :
-  (forall d, r <> RChunked d) -> limit_fits r src dst ->
-  rd_rel dst (gen_br_read r src dst stop) (reader_read r src (len dst) stop).
-Proof.
-  intros Hnc Hfit. destruct r as [|lft|d|].
-  - cbn. repeat split. rewrite drop_0. reflexivity.
-  - unfold gen_br_read. cbv zeta. apply rd_rel_forward, gen_br_read_limit_equiv, Hfit.
-  - exfalso. exact (Hnc d eq_refl).
-  - unfold gen_br_read. cbv zeta. apply rd_rel_forward, gen_br_read_unlimit_equiv.
-Qed.
-
-(* ------------------------------------------------------------------ the side condition cannot be dropped *)
-
-(** Without [sized_fits] / [limit_fits] the statements are false in the model's unbounded arithmetic: with a declared length,
-    an input and a room of 2^64 bytes each the generated code moves 2^64 - 1 bytes (the cap of the u64 -> usize conversion),
-    the model 2^64.  (No such slice exists for the Rust types, hence a side condition rather than a finding about the code.)
-    The witness is a list of 2^64 zeros, which is never evaluated: only its length is used. *)
-Lemma huge_bytes : exists b : bytes, len b = U64_LIMIT.
-Proof. exists (repeat 0 (N.to_nat U64_LIMIT)). rewrite len_length, repeat_length, N2Nat.id. reflexivity. Qed.
-
-Ltac split_if_in H :=
-  match type of H with
-  | context [if ?c then _ else _] => destruct c eqn:?; try (exfalso; lia)
-  end.
-
-Lemma gen_bw_write_equiv_unrestricted_refuted :
-  exists m e input avail out0,
-    ~ wr_rel avail out0 (gen_bw_write m e input avail out0) (writer_write {| w_mode := m; w_ended := e |} input avail).
-Proof.
-  destruct huge_bytes as [input Hlen].
-  exists (SSized U64_LIMIT), false, input, U64_LIMIT, []. intros H.
-  unfold gen_bw_write, writer_write in H. cbn [w_mode w_ended] in H. cbv zeta in H.
-  rewrite ?len_take, ?Hlen in H. unfold U64_LIMIT in *.
-  repeat split_if_in H; cbn [wr_rel] in H; try contradiction;
-    destruct H as (_ & _ & Hu & _); lia.
-Qed.
-
-Lemma gen_br_read_limit_equiv_unrestricted_refuted :
-  exists lft src dst stop,
-    ~ rd_rel dst (gen_br_read_limit (RLength lft) src dst) (reader_read (RLength lft) src (len dst) stop).
-Proof.
-  destruct huge_bytes as [b Hlen].
-  exists U64_LIMIT, b, b, false. intros H.
-  unfold gen_br_read_limit, reader_read in H. cbv zeta in H. cbn [rd_rel] in H.
-  rewrite ?Hlen in H. unfold U64_LIMIT in *.
-  destruct H as (_ & Hu & _); lia.
-Qed.
-
-
-(* ------------------------------------------------------------------ E. *)
-Print Assumptions take_eq.
-Print Assumptions drop_eq.
-Print Assumptions smode_u64_fits.
-Print Assumptions reader_u64_fits.
-Print Assumptions gen_br_is_ended_eq.
-Print Assumptions gen_br_is_on_chunk_boundary_eq.
-Print Assumptions gen_br_body_mode_eq.
-Print Assumptions gen_bw_has_body_eq.
-Print Assumptions gen_bw_is_chunked_eq.
-Print Assumptions gen_bw_is_ended_eq.
-Print Assumptions gen_bw_left_to_send_eq.
-Print Assumptions gen_bw_finish_spec.
-Print Assumptions gen_body_write_chunk_spec.
-Print Assumptions write_chunk_fits.
-Print Assumptions gen_bw_write_loop1_equiv.
-Print Assumptions gen_bw_write_equiv.
-Print Assumptions gen_bw_write_equiv_u64.
-Print Assumptions gen_bw_direct_equiv.
-Print Assumptions splice_0.
-Print Assumptions gen_br_read_limit_equiv.
-Print Assumptions gen_br_read_unlimit_equiv.
-Print Assumptions rd_rel_forward.
-Print Assumptions gen_br_read_nonchunked_equiv.
-Print Assumptions huge_bytes.
-Print Assumptions gen_bw_write_equiv_unrestricted_refuted.
-Print Assumptions gen_br_read_limit_equiv_unrestricted_refuted.
+(** Split into Gen2_equiv_rel / Gen2_equiv_writer / Gen2_equiv_reader; this file re-exports them. *)
+From Hoot.proofs Require Export Gen2_equiv_rel Gen2_equiv_writer Gen2_equiv_reader.
